@@ -417,7 +417,17 @@ pub fn mutate(db: &GrafeoDB, m: &mut Model, events: &mut Vec<(MOp, u8)>, r: &mut
 pub fn mutate_opt(db: &GrafeoDB, m: &mut Model, events: &mut Vec<(MOp, u8)>, r: &mut Rng, hist: &mut Vec<String>, kinds: &mut BTreeSet<&'static str>, logged_only: bool) {
     let live: Vec<u64> = m.nodes.keys().copied().collect();
     let elive: Vec<u64> = m.edges.keys().copied().collect();
-    let val = |r: &mut Rng| if r.chance(0.7) { vals::random_scalar(r) } else { vals::random(r, 2) };
+    let val = |r: &mut Rng| {
+        if r.chance(0.012) {
+            // a value whose log record is larger than 1 MiB / 16 MiB: nothing in the format bounds it
+            let n = *r.pick(&[1_100_000usize, 1_100_000, 2_500_000, 17_000_000]);
+            if r.chance(0.5) { Value::String("x".repeat(n).into()) } else { Value::Bytes(std::sync::Arc::from(vec![7u8; n])) }
+        } else if r.chance(0.7) {
+            vals::random_scalar(r)
+        } else {
+            vals::random(r, 2)
+        }
+    };
     let push = |events: &mut Vec<(MOp, u8)>, m: &mut Model, op: MOp, via: u8| {
         op.apply(m);
         events.push((op, via));
@@ -474,7 +484,7 @@ pub fn mutate_opt(db: &GrafeoDB, m: &mut Model, events: &mut Vec<(MOp, u8)>, r: 
             let k = *r.pick(KEYS);
             let v = val(r);
             db.set_node_property(NodeId::new(id), k, v.clone());
-            hist.push(format!("set_node_property({id},{k},{})", vals::show(&v)));
+            hist.push(format!("set_node_property({id},{k},{})", vals::show(&v).chars().take(80).collect::<String>()));
             push(events, m, MOp::SetNodeProp { id, k: k.to_string(), v }, 0);
         }
         4 => {
@@ -485,7 +495,7 @@ pub fn mutate_opt(db: &GrafeoDB, m: &mut Model, events: &mut Vec<(MOp, u8)>, r: 
             let id = *r.pick(&elive);
             let v = val(r);
             db.set_edge_property(EdgeId::new(id), "w", v.clone());
-            hist.push(format!("set_edge_property({id},w,{})", vals::show(&v)));
+            hist.push(format!("set_edge_property({id},w,{})", vals::show(&v).chars().take(80).collect::<String>()));
             push(events, m, MOp::SetEdgeProp { id, k: "w".into(), v }, 0);
         }
         5 => {
